@@ -15,8 +15,13 @@ preserved by every event.  The single hypothesis is `FreshRun`: an ID handed out
 request that is at that moment still waiting in the driver's queue — which can only fail after a
 full wrap of the 2^31-1 ID space while that request waits (finding F13, see DESIGN.md).
 `C13_quiescent_nowrap` discharges it for every history with fewer allocations than there are IDs.
+Streams: `C13_abandon_releases_stream` — abandoning a SEARCH also drops the last sender of its item channel,
+so the stream ends (`EndOfStream` after the queued items); `C13_dropped_stream_is_collected` — a search whose
+stream was dropped is removed, and its ID released, at the next frame routed to it.
 -/
 import Ldap3V.Lemmas.ConnNoWrap
+import Ldap3V.Lemmas.ConnGaps
+import Ldap3V.Props.C04
 namespace Ldap3V.Conn
 
 /-- the stream of a started search is over from its caller's point of view: it has been handed the
@@ -169,6 +174,96 @@ theorem C13_abandon (s : St) (i : Nat) (rest : List Nat) (o : Op) (t : Nat) (hr 
     simp only [dropSenderOpt] at hoj
     exact dropSender_mail _ _ _ hoj
 
+/-- Abandon of a SEARCH releases the stream as well: when the driver handles `abandon t` and `t` is the
+ID of a search registered with channel `c`, the sender clone the driver held for `c` is dropped and no
+other sender exists (`chanOpen s' c = false`: no entry of the search map points at `c` any more, and the
+original sender is not travelling in the op queue) — so, by `C04_closed_channel_ends`, the stream's
+`next()` returns the items already queued and then `EndOfStream`, never "pending".
+`Acct`/`RouteInv` hold in every reachable state (`C13_abandon_releases_stream_nowrap`). -/
+theorem C13_abandon_releases_stream (s : St) (ha : Acct s) (hri : RouteInv s) (i : Nat) (rest : List Nat) (o : Op) (t c : Nat)
+    (hr : s.drv = .running) (hq : s.opQ = i :: rest) (ho : s.ops[i]? = some o) (hk : o.kind = .abandon (t : Int))
+    (hin : s.inUse.contains o.id = true) (hmem : (t, c) ∈ s.searchmap) :
+    ∃ s', step s (.drvOp true) = some (s', .none) ∧ chanOpen s' c = false ∧ s'.chans = s.chans ∧
+      ∀ (ch : Chan) (dl : Option Nat), s.chans[c]? = some ch →
+        (s.ops[ch.opIdx]?.bind (·.res)) = some .ack →      -- the stream exists: `start()` returned Ok
+        ch.rxAlive = true →
+        (∀ it, ch.items[ch.taken]? = some it →
+          step s' (.recv c dl) = some ({ s' with chans := s'.chans.set c { ch with taken := ch.taken + 1 } }, .item (some it))) ∧
+        (ch.items[ch.taken]? = none → step s' (.recv c dl) = some (s', .closed)) := by
+  obtain ⟨s', hs, hclosed, hc, hres, _⟩ := drvOp_abandon_closes s ha hri i rest o t c hr hq ho hk hin hmem
+  refine ⟨s', hs, hclosed, hc, fun ch dl hch hack hrx => ?_⟩
+  exact C04_closed_channel_ends s' c ch dl (by rw [hc]; exact hch) (resKeep_bind hres _ _ hack) hrx hclosed
+
+/-- the same at the end of ANY history with at most `N` (= 2^31-1) allocations: no hypothesis on the state -/
+theorem C13_abandon_releases_stream_nowrap (N : Nat) (evs : List Ev) (hcount : allocCount evs ≤ N)
+    (i : Nat) (rest : List Nat) (o : Op) (t c : Nat)
+    (hr : (run (init N) evs).drv = .running) (hq : (run (init N) evs).opQ = i :: rest)
+    (ho : (run (init N) evs).ops[i]? = some o) (hk : o.kind = .abandon (t : Int))
+    (hin : (run (init N) evs).inUse.contains o.id = true) (hmem : (t, c) ∈ (run (init N) evs).searchmap) :
+    ∃ s', step (run (init N) evs) (.drvOp true) = some (s', .none) ∧ chanOpen s' c = false ∧
+      s'.chans = (run (init N) evs).chans ∧
+      ∀ (ch : Chan) (dl : Option Nat), (run (init N) evs).chans[c]? = some ch →
+        ((run (init N) evs).ops[ch.opIdx]?.bind (·.res)) = some .ack → ch.rxAlive = true →
+        (∀ it, ch.items[ch.taken]? = some it →
+          step s' (.recv c dl) = some ({ s' with chans := s'.chans.set c { ch with taken := ch.taken + 1 } }, .item (some it))) ∧
+        (ch.items[ch.taken]? = none → step s' (.recv c dl) = some (s', .closed)) :=
+  C13_abandon_releases_stream _ (Acct.run N evs (freshRun_init N evs hcount)) (RouteInv.run N evs) i rest o t c hr hq ho hk hin hmem
+
+/-- … read to the end: after the Abandon of a search has been handled, the `k`-th following `next()` of its
+stream returns the `k`-th item that was still queued, in order, and the one after the last returns
+`EndOfStream` (`closed`) — the stream never pends again. -/
+theorem C13_abandoned_stream_drains (s : St) (ha : Acct s) (hri : RouteInv s) (i : Nat) (rest : List Nat) (o : Op) (t c : Nat)
+    (hr : s.drv = .running) (hq : s.opQ = i :: rest) (ho : s.ops[i]? = some o) (hk : o.kind = .abandon (t : Int))
+    (hin : s.inUse.contains o.id = true) (hmem : (t, c) ∈ s.searchmap)
+    (ch : Chan) (dl : Option Nat) (hc : s.chans[c]? = some ch) (hack : (s.ops[ch.opIdx]?.bind (·.res)) = some .ack)
+    (hrx : ch.rxAlive = true) :
+    ∃ s', step s (.drvOp true) = some (s', .none) ∧
+      (∀ (k : Nat) (it : Item), ch.items[ch.taken + k]? = some it →
+        ∃ s'', step (run s' (List.replicate k (.recv c dl))) (.recv c dl) = some (s'', .item (some it))) ∧
+      step (run s' (List.replicate (ch.items.length - ch.taken) (.recv c dl))) (.recv c dl) =
+        some (run s' (List.replicate (ch.items.length - ch.taken) (.recv c dl)), .closed) := by
+  obtain ⟨s', hs, hclosed, hcs, hres, _⟩ := drvOp_abandon_closes s ha hri i rest o t c hr hq ho hk hin hmem
+  exact ⟨s', hs, closed_channel_drains s' c ch dl (by rw [hcs]; exact hc) (resKeep_bind hres _ _ hack) hrx hclosed⟩
+
+/-- A stream dropped without `finish()` is collected at the next frame routed to it: when a search
+item (protocolOp 4, 19, 25) or a well-formed SearchResultDone arrives under the ID of a search whose
+receiver is gone (`rxAlive = false`: `tx.send` fails in the driver), the driver removes the search
+from the search map and releases its ID (fix F8); nothing is pushed into the dead channel, the
+result map, the operations and the driver's state are untouched, and every OTHER search entry and
+reserved ID stays. -/
+theorem C13_dropped_stream_is_collected (s : St) (f : Frame) (c : Nat) (ch : Chan) (hr : s.drv = .running)
+    (hf : s.srvLog[s.pos]? = some f) (hl : lookup s.searchmap f.id = some c) (hc : s.chans[c]? = some ch)
+    (hdead : ch.rxAlive = false) (hop : f.op = 4 ∨ f.op = 25 ∨ f.op = 19 ∨ (f.op = 5 ∧ f.good = true)) :
+    ∃ s', step s .drvResp = some (s', .none) ∧ lookup s'.searchmap f.id = none ∧
+      (∀ k : Nat, (k : Int) = f.id → k ∉ s'.inUse) ∧
+      (∀ p, p ∈ s'.searchmap ↔ p ∈ s.searchmap ∧ (p.1 : Int) ≠ f.id) ∧ (∀ j, j ∈ s'.inUse ↔ j ∈ s.inUse ∧ (j : Int) ≠ f.id) ∧
+      s'.chans = s.chans ∧ s'.resultmap = s.resultmap ∧ s'.ops = s.ops ∧ s'.opQ = s.opQ ∧ s'.drv = .running ∧
+      s'.pos = s.pos + 1 := by
+  refine ⟨_, drvResp_dead_rx s f c ch hr hf hl hc hdead hop, lookup_erase_self _ _,
+    fun k hk hmem => (mem_eraseId.mp hmem).2 hk, fun p => ⟨mem_erase, fun h => mem_erase_of h.1 h.2⟩,
+    fun j => mem_eraseId, rfl, rfl, rfl, rfl, hr, rfl⟩
+
+/-- … and in every reachable state (histories with at most `N` = 2^31-1 allocations) that was the last
+sender of the channel: after the step no sender for channel `c` is left anywhere -/
+theorem C13_dropped_stream_is_collected_nowrap (N : Nat) (evs : List Ev) (hcount : allocCount evs ≤ N)
+    (f : Frame) (c : Nat) (ch : Chan) (hr : (run (init N) evs).drv = .running)
+    (hf : (run (init N) evs).srvLog[(run (init N) evs).pos]? = some f)
+    (hl : lookup (run (init N) evs).searchmap f.id = some c) (hc : (run (init N) evs).chans[c]? = some ch)
+    (hdead : ch.rxAlive = false) (hop : f.op = 4 ∨ f.op = 25 ∨ f.op = 19 ∨ (f.op = 5 ∧ f.good = true)) :
+    ∃ s', step (run (init N) evs) .drvResp = some (s', .none) ∧ lookup s'.searchmap f.id = none ∧
+      (∀ k : Nat, (k : Int) = f.id → k ∉ s'.inUse) ∧ chanOpen s' c = false := by
+  obtain ⟨s', hs, h1, h2, _⟩ := C13_dropped_stream_is_collected _ f c ch hr hf hl hc hdead hop
+  refine ⟨s', hs, h1, h2, ?_⟩
+  obtain ⟨n, hmem, hn⟩ := lookup_some hl
+  have e := drvResp_dead_rx _ f c ch hr hf hl hc hdead hop
+  rw [hs] at e
+  simp only [Option.some.injEq, Prod.mk.injEq] at e
+  have ha := Acct.run N evs (freshRun_init N evs hcount)
+  refine chanOpen_erase_false ha (RouteInv.run N evs) hmem ?_ ?_ ?_
+  · rw [e.1, hn]
+  · rw [e.1]; exact fun j hj => hj
+  · rw [e.1]; exact Tame.refl _
+
 /-- a request whose ID was released while it waited in the queue is discarded: nothing is sent,
 nothing is registered (fix F15) -/
 theorem C13_scrubbed_request_not_registered (s : St) (i : Nat) (rest : List Nat) (o : Op) (b : Bool)
@@ -267,5 +362,41 @@ example : ∀ (i : Nat) (o : Op), (run (init 100) sampleHistory).ops[i]? = some 
 
 example : (run (init 100) sampleHistory).ops.map (·.res) =
     [some (.frame ⟨1, 11, 7, true⟩), some .ack, some .timeout, some .ack] := by decide
+
+/-- `C13_abandon_releases_stream(_nowrap)`, `C13_abandoned_stream_drains`: a started search with one entry queued, then an Abandon naming it is
+queued; the hypotheses hold, and after the driver's step the stream reads its entry and then `closed` -/
+def abandonSearchHistory : List Ev :=
+  [.alloc .search, .enqueue 0 none, .drvOp true, .poll 0, .srvSend ⟨1, 4, 8, false⟩, .drvResp,
+   .alloc (.abandon 1), .enqueue 1 none]
+
+example :
+    let s := run (init 100) abandonSearchHistory
+    allocCount abandonSearchHistory ≤ 100 ∧ s.drv = .running ∧ s.opQ = [1] ∧ (s.ops[1]?.map (·.kind)) = some (.abandon ((1 : Nat) : Int)) ∧
+    (s.ops[1]?.map fun o => s.inUse.contains o.id) = some true ∧ (1, 0) ∈ s.searchmap ∧
+    (s.chans[0]?.map fun ch => (ch.rxAlive, ch.items.length, ch.taken, s.ops[ch.opIdx]?.bind (·.res))) = some (true, 1, 0, some .ack) ∧
+    chanOpen s 0 = true := by decide
+
+example :
+    let s1 := run (init 100) (abandonSearchHistory ++ [.drvOp true])
+    chanOpen s1 0 = false ∧ s1.inUse = [] ∧ s1.searchmap = [] ∧
+    (step s1 (.recv 0 none)).map (·.2) = some (.item (some (.entry ⟨1, 4, 8, false⟩))) ∧
+    (step (run s1 [.recv 0 none]) (.recv 0 none)).map (·.2) = some .closed := by decide
+
+/-- `C13_dropped_stream_is_collected`: a search is started (a second call is outstanding beside it), its
+stream's receiver goes away without a scrub; the next entry under the search's ID meets a dead receiver -/
+def droppedStreamHistory : List Ev :=
+  [.alloc .search, .enqueue 0 none, .alloc .single, .enqueue 1 none, .drvOp true, .drvOp true, .poll 0,
+   .finish 0 false, .srvSend ⟨1, 4, 8, false⟩]
+
+example :
+    let s := run (init 100) droppedStreamHistory
+    allocCount droppedStreamHistory ≤ 100 ∧ s.drv = .running ∧ s.srvLog[s.pos]? = some ⟨1, 4, 8, false⟩ ∧
+    lookup s.searchmap (1 : Int) = some 0 ∧ (s.chans[0]?.map (·.rxAlive)) = some false ∧ s.inUse = [2, 1] ∧
+    s.searchmap = [(1, 0)] ∧ chanOpen s 0 = true := by decide
+
+example :
+    let s1 := run (init 100) (droppedStreamHistory ++ [.drvResp])
+    s1.searchmap = [] ∧ s1.inUse = [2] ∧ s1.resultmap = [(2, 1)] ∧ s1.chans.map (·.items) = [[]] ∧ chanOpen s1 0 = false ∧
+    s1.drv = .running := by decide
 
 end Ldap3V.Conn
